@@ -315,7 +315,8 @@ fn schedule(u: &mut U) -> Schedule {
     for _ in 0..n {
         let b = u.u8();
         steps.push(match b {
-            0..=0x3f => Step::Stall,
+            0..=0x37 => Step::Stall,
+            0x38..=0x3f => Step::StallRun([2u16, 5, 17, 64, 65, 130, 300, 1000][b as usize & 7]),
             0x40..=0x9f => Step::Data(1 + (b as u16 & 7)),
             0xa0..=0xef => Step::Data(1 + (b as u16 & 63)),
             _ => Step::Data([1u16, 3, 4, 15, 16, 17, 19, 20, 21, 4096, 65535][(b as usize & 15) % 11]),
@@ -501,7 +502,7 @@ pub fn run(id: &str, data: &[u8]) -> Option<Outcome> {
         "C15" => {
             let c = if u.chance(236) {
                 let large = u.chance(24);
-                c15::Case::Config { msg: message(u, g::StorageMode::Either, large, false), ts: (u.u32(), u.u32()), twist: [0u8, 0, 0, 0, 0, 0, 0, 0, 1, 2][u.below(10)] }
+                c15::Case::Config { msg: message(u, g::StorageMode::Either, large, false), ts: (u.u32(), u.u32()), twist: [0u8, 0, 0, 0, 0, 0, 0, 0, 1, 2, 3][u.below(11)] }
             } else {
                 let kind = u.pick(&[RKind::Bool, RKind::Float(32), RKind::Float(64), RKind::Uint(32), RKind::Str]);
                 let vk = self::kind(u);
